@@ -218,6 +218,16 @@ def register(R):
                                                ('C17.returns-removed', c.rt == S.children(c.pre, c.ref('self')).get(c['k']))])],
                    raises=[Raises('KeyError', when=lambda c: z3.Not(S.children(c.pre, c.ref('self')).has(c['k'])), exact=True, name='C17.KeyError-iff-absent')],
                    result=P.val('result', 'any'), props=('C17',), opts={'bind_partial': True, 'setup': _no_default}))
+    # pop(k, default): never raises, removes the key from both views when present (seeded change C17: removal skipped when a default is given)
+    R.add(Contract(D + 'ConfigDict.pop', [dct(), P.val('k', 'key'), P.val('dflt', 'any')], name='with-default',
+                   requires=lambda c: d_req(c, None), modifies=lambda c: d_mods(c, None),
+                   ensures=[('pop', lambda c: [('C17.views-agree', inv_dict(c, c.post, c.ref('self'))),
+                                               ('C17.view-is-old-view-without-key', z3.If(S.children(c.pre, c.ref('self')).has(c['k']),
+                                                                                          S.children(c.post, c.ref('self')).eq(S.children(c.pre, c.ref('self')).delete(c['k'])),
+                                                                                          S.children(c.post, c.ref('self')).eq(S.children(c.pre, c.ref('self'))))),
+                                               ('C17.returns-removed-or-default', c.rt == z3.If(S.children(c.pre, c.ref('self')).has(c['k']),
+                                                                                                S.children(c.pre, c.ref('self')).get(c['k']), c['dflt']))])],
+                   result=P.val('result', 'any'), props=('C17',), opts={'bind_partial': True, 'setup': _one_default, 'replay_call': lambda b, args, w: args['self'].pop(args['k'], args['dflt'])}))
     R.add(Contract(D + 'ConfigDict.ayns.set_child', [dct(), key(), anyv()], requires=d_req, modifies=d_mods,
                    ensures=[('set_child', lambda c: [('C17.views-agree', inv_dict(c, c.post, c.ref('self'))),
                                                      ('C17.key-bound-to-node', z3.And(S.children(c.post, c.ref('self')).has(c['name']),
@@ -245,6 +255,11 @@ def _reg_all(R):
 def _no_default(it, fr, sc):
     from pyvc.values import TupleV
     fr.loc['d'] = TupleV([])
+
+
+def _one_default(it, fr, sc):
+    from pyvc.values import TupleV
+    fr.loc['d'] = TupleV([fr.loc.pop('dflt')])
 
 
 def _others_same(c, name):
